@@ -123,7 +123,17 @@ def _handle_redirect(
         result.target_stage_ref_id,
     )
 
-    # Atomic: store stage + mark processed + push JumpToStage + CompleteTask
+    # The task's part in this iteration is over: record REDIRECT on the task in
+    # the SAME commit as the JumpToStage push. A separate CompleteTask(REDIRECT)
+    # message can be overtaken by the jump it accompanies: delivered after the
+    # jump re-armed the stage and the same task is RUNNING again in the next
+    # loop iteration, it marks the live task REDIRECT and wedges the stage.
+    task_model.status = result.status
+    import time as _time
+
+    task_model.end_time = int(_time.time() * 1000)
+
+    # Atomic: store stage (+ task REDIRECT) + mark processed + push JumpToStage
     txn_helper.execute_atomic(
         stage=stage,
         source_message=message,
@@ -136,16 +146,6 @@ def _handle_redirect(
                     target_stage_ref_id=result.target_stage_ref_id,
                     jump_context=result.context or {},
                     jump_outputs=result.outputs or {},
-                ),
-                None,
-            ),
-            (
-                CompleteTask(
-                    execution_type=message.execution_type,
-                    execution_id=message.execution_id,
-                    stage_id=message.stage_id,
-                    task_id=message.task_id,
-                    status=result.status,
                 ),
                 None,
             ),
